@@ -1,6 +1,7 @@
 package main
 
 import (
+	"sort"
 	"fmt"
 	"math/big"
 	"regexp"
@@ -46,6 +47,18 @@ func (g *c18gen) pred() (string, func(map[string]interface{}) bool) {
 		return fmt.Sprintf("value + value > %d", n), func(t map[string]interface{}) bool { return 2*t["value"].(int64) > n }
 	case 2:
 		return "host = region", func(t map[string]interface{}) bool { return t["host"] == t["region"] }
+	case 3: // type-annotated references: the annotation is part of the predicate
+		switch g.r.intn(4) {
+		case 0:
+			return "host::tag = 'a'", func(t map[string]interface{}) bool { return t["host"] == "a" }
+		case 1:
+			n := int64(g.r.intn(5))
+			return fmt.Sprintf("value::integer > %d", n), func(t map[string]interface{}) bool { return t["value"].(int64) > n }
+		case 2:
+			return "region::tag != host::tag", func(t map[string]interface{}) bool { return t["host"] != t["region"] }
+		default:
+			return "value::field + 1 > 2", func(t map[string]interface{}) bool { return t["value"].(int64)+1 > 2 }
+		}
 	default:
 		p := g.g.nonTime(2)
 		return p.text, func(t map[string]interface{}) bool { return p.holds(nil, t) }
@@ -93,6 +106,47 @@ func (g *c18gen) window() (time.Time, time.Time) {
 }
 
 var c18Stamp = regexp.MustCompile(`'\d{4}-\d\d-\d\dT[0-9:.]+Z'`)
+
+// typedRefs: the type-annotated references other than the time column, sorted
+func typedRefs(e influxql.Expr) string {
+	var out []string
+	if e == nil {
+		return ""
+	}
+	influxql.WalkFunc(e, func(n influxql.Node) {
+		if v, ok := n.(*influxql.VarRef); ok && v.Type != influxql.Unknown && strings.ToLower(v.Val) != "time" {
+			out = append(out, v.String())
+		}
+	})
+	sort.Strings(out)
+	return strings.Join(out, " ")
+}
+
+// hasConstant: a boolean literal or a comparison of two literals - folding may then drop a whole predicate
+func hasConstant(e influxql.Expr) bool {
+	found := false
+	if e == nil {
+		return false
+	}
+	isLit := func(x influxql.Expr) bool {
+		switch x.(type) {
+		case *influxql.BooleanLiteral, *influxql.IntegerLiteral, *influxql.NumberLiteral, *influxql.StringLiteral, *influxql.UnsignedLiteral:
+			return true
+		}
+		return false
+	}
+	influxql.WalkFunc(e, func(n influxql.Node) {
+		switch x := n.(type) {
+		case *influxql.BooleanLiteral:
+			found = true
+		case *influxql.BinaryExpr:
+			if isLit(x.LHS) && isLit(x.RHS) {
+				found = true
+			}
+		}
+	})
+	return found
+}
 
 func c18Seq(o *out, c c18cond, windows [][2]time.Time, tag string) {
 	var cond influxql.Expr
@@ -200,6 +254,12 @@ func c18Seq(o *out, c c18cond, windows [][2]time.Time, tag string) {
 					}
 				}
 			}
+		}
+		// kept predicates are kept as written: every type annotation of a non-time reference survives
+		o.checked()
+		if want, got := typedRefs(cond), typedRefs(st.Condition); want != got && !hasConstant(cond) {
+			o.fail("", fmt.Sprintf("after SetTimeRange #%d on %q the condition %s has the type-annotated references [%s], the original [%s]", k+1, c.text, printed, got, want), rp)
+			return
 		}
 		// the printed condition reads back as the same condition
 		o.checked()
